@@ -69,9 +69,13 @@ REQUIRED_BINS = [
     "foreign_ack_before_first_in", "lost_final_ack_then_status", "foreign_ack_before_first_in_after_lost_final_ack",
     "missing_then_good", "sparse_indices", "default_collection", "runtime_descriptor_requested",
     "sa_start_mid_descriptor", "sa_zlp_position", "sa_zlp_with_ready_low", "sa_stall_on_last_byte", "tx_ready_stalls",
+    "sa_start_beyond_descriptor", "sa_start_near_11bit_limit", "sa_length_equals_start", "zero_length_descriptor_requested",
+    "sa_domain_usb", "sa_domain_sync", "sa_domain_aux", "sa_mux_shape_B", "sa_mux_shape_BD", "sa_mux_shape_DB", "sa_mux_shape_BDD",
+    "avoid_blockram_none_env_set", "avoid_blockram_none_env_unset", "long_descriptor",
 ]
 REQUIRED_EVENTS = ["transfers_judged", "data_packets_compared", "bytes_compared", "stalls_seen", "zlps_seen",
-                   "sa_requests_judged", "sa_bytes_compared", "sa_stalls_seen", "rom_postcondition_checked", "setup_acked"]
+                   "sa_requests_judged", "sa_bytes_compared", "sa_stalls_seen", "rom_postcondition_checked", "setup_acked", "sa_probes_judged",
+                   "handler_class_checked"]
 ASSUMPTIONS = [
     "host is legal: waits for the response or a timeout before the next packet, stops the data stage after a short packet or wLength bytes",
     "stand-alone: value/length/start_position are held from the start strobe until the packet has ended; one request at a time",
@@ -93,7 +97,7 @@ def draw_length(rng, mps):
                        ]) if rng.random() < 0.9 else rng.randint(1, 300)
 
 
-def make_entries(rng, mps, max_total):
+def make_entries(rng, mps, max_total, allow_long=True):
     """dict (type, index) -> bytes"""
     entries = {}
     ntypes = rng.randint(1, 4)
@@ -111,10 +115,16 @@ def make_entries(rng, mps, max_total):
             n = draw_length(rng, mps)
             if total + n > max_total:
                 n = rng.choice([mps, 2 * mps, rng.randint(1, 9)])
+            r = rng.random()
+            if r < 0.04:
+                n = 0                                   # zero-length descriptor (the quantifier says sizes 0..)
+            elif r < 0.09 and allow_long and not any(len(v) > 1000 for v in entries.values()):
+                n = rng.choice([1024, 1031, 1536, 1900, 64 * rng.randint(16, 29)])     # offsets near the 11-bit start_position limit
+                total -= n
             total += n
             entries[(t, i)] = tagged(n, rng.randrange(256)) if rng.random() < 0.8 else bytes(rng.randrange(256) for _ in range(n))
     # make sure exact multiples exist
-    if not any(len(v) % mps == 0 for v in entries.values()):
+    if not any(len(v) % mps == 0 and len(v) for v in entries.values()):
         t = rng.choice(types)
         i = rng.choice([x for x in range(0, 9) if (t, x) not in entries])
         entries[(t, i)] = tagged(mps * rng.choice([1, 1, 2, 3]), rng.randrange(256))
@@ -159,7 +169,7 @@ class Setup:
             self.collection = coll
             return
         budget = 1400 if self.variant != "block" else 2500
-        self.table = make_entries(rng, self.mps, budget)
+        self.table = make_entries(rng, self.mps, budget, allow_long=standalone or self.mps >= 32)
         keys = sorted(self.table)
         if self.variant == "mux":
             k = rng.randint(1, max(1, len(keys) // 2)) if len(keys) > 1 else 0
@@ -227,6 +237,10 @@ class Setup:
         c = [1, 2, n - 1, n, n, n + 1, mps - 1, mps, mps + 1, 2 * mps, 3 * mps, (n // mps) * mps, (n // mps + 1) * mps, 255, 256, 0xFFFF, 0xFFFF, 4096,
              n + mps, n + 9, rng.randint(1, n + 70), rng.randint(1, max(1, n))]
         return rng.choice([x for x in c if 1 <= x <= 0xFFFF])
+
+    def owner(self, key):
+        """which sub-handler owns the key in the stand-alone mux shapes (index into the handler list), else 0"""
+        return getattr(self, "owners", {}).get(key, 0)
 
 
 def classify_request(setup, res, key, wlength, n, variant_of_key):
@@ -345,8 +359,28 @@ def run_device(rng, tier, res, setup):
     utmi = UTMIInterface()
     dev = USBDevice(bus=utmi)
     ep0 = USBControlEndpoint(utmi=dev.utmi, max_packet_size=mps)
-    ep0.add_standard_request_handlers(setup.build_collection(), avoid_blockram=(setup.variant == "distributed"))
+    import os
+    from rv.sim import Registry
+    from luna.gateware.usb.usb2.descriptor import GetDescriptorHandlerBlock, GetDescriptorHandlerDistributed, GetDescriptorHandlerMux
+    avoid = setup.variant == "distributed"
+    if rng.random() < 0.4:
+        # avoid_blockram=None: the handler defers to LUNA_AVOID_BLOCKRAM in the environment (read when it is constructed)
+        saved = os.environ.pop("LUNA_AVOID_BLOCKRAM", None)
+        try:
+            if avoid:
+                os.environ["LUNA_AVOID_BLOCKRAM"] = rng.choice(["1", "true", "yes"])
+            res.bin("avoid_blockram_none_env_set" if avoid else "avoid_blockram_none_env_unset")
+            res.desc["config"]["avoid_blockram"] = "None, env %s" % ("set" if avoid else "unset")
+            ep0.add_standard_request_handlers(setup.build_collection(), avoid_blockram=None)
+        finally:
+            os.environ.pop("LUNA_AVOID_BLOCKRAM", None)
+            if saved is not None:
+                os.environ["LUNA_AVOID_BLOCKRAM"] = saved
+    else:
+        ep0.add_standard_request_handlers(setup.build_collection(), avoid_blockram=avoid)
     dev.add_endpoint(ep0)
+    if any(len(v) > 1000 for v in setup.table.values()):
+        res.bin("long_descriptor")
     second_ep = rng.choice([0, 1, 2, 5, 9])
     sig_ep = None
     if second_ep:
@@ -356,8 +390,16 @@ def run_device(rng, tier, res, setup):
     res.bin("mps_%d" % mps)
     contract = RomContract(res)
     try:
-        with contract:
+        with contract, Registry(GetDescriptorHandlerBlock, GetDescriptorHandlerDistributed, GetDescriptorHandlerMux) as reg:
             b = Bench(dev, domain="usb", freq=60e6, max_cycles=90000)
+        built = (len(reg.instances[GetDescriptorHandlerBlock]), len(reg.instances[GetDescriptorHandlerDistributed]),
+                 len(reg.instances[GetDescriptorHandlerMux]))
+        want = {"block": (1, 0, 0), "distributed": (0, 1, 0), "mux": (1, 1, 1)}[setup.variant]
+        res.event("handler_class_checked")
+        if built != want:
+            res.violation("descriptor_handler_selection_differs_from_avoid_blockram_setting",
+                          "%s :: built (block, distributed, mux) = %s expected %s" % (setup.describe(), built, want))
+            return
     except icontract.ViolationError as e:
         res.violation("rom_image_roundtrip_wrong", "%s :: %s" % (setup.describe(), contract.failed or str(e)[:300]))
         return
@@ -511,6 +553,8 @@ def run_device(rng, tier, res, setup):
             yield from host.gap()
             return "stalled"
         exp = exp_full[:wlength]
+        if len(exp_full) == 0:
+            res.bin("zero_length_descriptor_requested")
         classify_request(setup, res, key, wlength, len(exp_full), variant_of(key))
         if len(exp) > mps:
             flags["multi"] = True
@@ -566,6 +610,8 @@ def run_device(rng, tier, res, setup):
                     mech = "data_packet_malformed"
                 elif payload is None:
                     mech = "unexpected_response_to_in"
+                elif len(exp_full) == 0:
+                    mech = "%s_zero_length_descriptor_not_answered_with_zlp" % vk
                 elif len(chunk) == 0:
                     # total is a non-zero multiple of mps and below wLength: a ZLP is required
                     if payload == exp[:len(payload)]:
@@ -688,7 +734,7 @@ def run_device(rng, tier, res, setup):
                     key = rng.choice(keys)
                 nlen = len(setup.table[key])
                 wlength = setup.draw_wlength(rng, nlen)
-                if nlen % mps == 0 and rng.random() < 0.5:
+                if nlen and nlen % mps == 0 and rng.random() < 0.5:
                     wlength = rng.choice([nlen + 1, nlen + mps, 0xFFFF, 255 if nlen < 255 else 0xFFFF, nlen])
                 scenario = rng.choice(["normal", "normal", "interleave", "interleave", "lost_ack", "lost_ack_foreign", "lost_ack_foreign",
                                        "early_status", "abandon", "lost_final_ack", "lost_final_ack"])
@@ -726,9 +772,16 @@ def run_standalone(rng, tier, res, setup):
     mps = setup.mps
     res.bin("sa_" + setup.variant)
     res.bin("mps_%d" % mps)
+    if any(len(v) > 1000 for v in setup.table.values()):
+        res.bin("long_descriptor")
+    dom = "usb"
+    shape = None
     if setup.variant == "block":
         setup.runtime = set()
-        dut = GetDescriptorHandlerBlock(setup.build_collection(), max_packet_length=mps)
+        dom = rng.choice(["default", "usb", "sync", "sync", "aux", "aux"])
+        kw = {} if dom == "default" else {"domain": dom}
+        dom = "usb" if dom == "default" else dom
+        dut = GetDescriptorHandlerBlock(setup.build_collection(), max_packet_length=mps, **kw)
     elif setup.variant == "distributed":
         dut = GetDescriptorHandlerDistributed(setup.build_collection(), max_packet_length=mps)
     else:
@@ -740,13 +793,66 @@ def run_standalone(rng, tier, res, setup):
                 runtime.add_descriptor((lambda raw=raw: USBDescriptorStreamGenerator(raw)), index=i, descriptor_type=t)
             else:
                 fixed.add_descriptor(raw, index=i, descriptor_type=t)
-        dut = GetDescriptorHandlerMux()
-        dut.add_descriptor_handler(GetDescriptorHandlerBlock(fixed, max_packet_length=mps))
-        dut.add_descriptor_handler(GetDescriptorHandlerDistributed(runtime, max_packet_length=mps))
+        rkeys = sorted(setup.runtime)
+        shape = rng.choice(["BD", "DB", "BDD", "BDD", "B", "B"])
+        if shape == "BDD" and len(rkeys) < 2:
+            # a second runtime descriptor so that two distributed handlers can be built
+            t0, i0 = rkeys[0]
+            extra = next(((t0, i) for i in range(256) if (t0, i) not in setup.table), None)
+            if extra is None:
+                shape = "DB"
+            else:
+                setup.table[extra] = tagged(rng.choice([3, mps, mps + 2]), 0x5A)
+                setup.runtime.add(extra)
+                rkeys = sorted(setup.runtime)
+        setup.owners = {}
+        if shape == "B":
+            # a mux with a single handler: everything in the ROM; the mux (and its handler) may live in another domain
+            setup.runtime = set()
+            dom = rng.choice(["usb", "aux", "sync"])
+            allrom = DeviceDescriptorCollection(automatic_language_descriptor=False)
+            for (t, i), raw in sorted(setup.table.items()):
+                allrom.add_descriptor(raw, index=i, descriptor_type=t)
+            dut = GetDescriptorHandlerMux(domain=dom)
+            dut.add_descriptor_handler(GetDescriptorHandlerBlock(allrom, max_packet_length=mps, domain=dom))
+        else:
+            blk = GetDescriptorHandlerBlock(fixed, max_packet_length=mps)
+            dut = GetDescriptorHandlerMux()
+            if shape == "BDD":
+                half = set(rkeys[:len(rkeys) // 2])
+                r1 = DeviceDescriptorCollection(automatic_language_descriptor=False)
+                r2 = DeviceDescriptorCollection(automatic_language_descriptor=False)
+                for (t, i) in rkeys:
+                    raw = setup.table[(t, i)]
+                    (r1 if (t, i) in half else r2).add_descriptor((lambda raw=raw: USBDescriptorStreamGenerator(raw)), index=i, descriptor_type=t)
+                    setup.owners[(t, i)] = 1 if (t, i) in half else 2
+                handlers = [blk, GetDescriptorHandlerDistributed(r1, max_packet_length=mps), GetDescriptorHandlerDistributed(r2, max_packet_length=mps)]
+            else:
+                dist = GetDescriptorHandlerDistributed(runtime, max_packet_length=mps)
+                handlers = [blk, dist] if shape == "BD" else [dist, blk]
+            for h in handlers:
+                dut.add_descriptor_handler(h)
+        res.bin("sa_mux_shape_" + shape)
     contract = RomContract(res)
     try:
         with contract:
-            b = Bench(dut, domain="usb", freq=60e6, max_cycles=60000)
+            res.bin("sa_domain_" + dom)
+            res.desc["config"]["domain"] = dom
+            res.desc["config"]["mux_shape"] = shape
+            if dom == "sync":
+                b = Bench(dut, domain="sync", freq=60e6, max_cycles=60000)
+            else:
+                # the handler lives in `dom`; sync runs at an unrelated rate as a bystander
+                from amaranth import Elaboratable, Module, Signal
+
+                class Top(Elaboratable):
+                    def elaborate(self, platform):
+                        m = Module()
+                        m.submodules.dut = dut
+                        tick = Signal(8)
+                        m.d.sync += tick.eq(tick + 1)
+                        return m
+                b = Bench(Top(), domain=dom, freq=60e6, clocks={"sync": rng.choice([23e6, 41e6, 97e6, 131e6])}, max_cycles=60000)
     except icontract.ViolationError as e:
         res.violation("rom_image_roundtrip_wrong", "%s :: %s" % (setup.describe(), contract.failed or str(e)[:300]))
         return
@@ -760,7 +866,8 @@ def run_standalone(rng, tier, res, setup):
     res.desc["requests"] = []
     flags = {"multi": False, "missing": False}
     IDLE, RESP, QUIET, RECOVER = "idle", "resp", "quiet", "recover"
-    o = {"state": IDLE, "exp": None, "idx": 0, "wait": 0, "quiet": 0, "ctx": "", "in_packet": False, "stalled_here": 0, "vkey": "", "abort": False}
+    o = {"state": IDLE, "exp": None, "idx": 0, "wait": 0, "quiet": 0, "ctx": "", "in_packet": False, "stalled_here": 0, "vkey": "", "abort": False,
+         "optional": False}
 
     def variant_of(key):
         if setup.variant == "mux":
@@ -802,6 +909,11 @@ def run_standalone(rng, tier, res, setup):
                     o["quiet_len"] = max(o["quiet_len"], 6)
                 else:
                     o["exp"] = raw[sp:sp + min(mps, length - sp)]
+                # positions a legal host never reaches (beyond the descriptor, or nothing left of wLength): there are no
+                # bytes to send, so the only thing judged is that no data byte is streamed (ZLP, stall or silence are fine)
+                o["optional"] = raw is not None and (sp > len(raw) or length <= sp)
+                if o["optional"]:
+                    o["exp"] = b""
                 o.update(state=RESP, idx=0, wait=0, in_packet=False, stalled_here=0)
                 # a distributed handler raises stall combinationally in the start cycle itself
                 if stall:
@@ -810,7 +922,10 @@ def run_standalone(rng, tier, res, setup):
                         res.event("sa_requests_judged")
                         o["state"], o["quiet"] = QUIET, 0
                     else:
-                        fail(o["stall_mech"], "stall for an existing descriptor (in the start cycle)")
+                        if o["optional"]:
+                            o["state"], o["quiet"] = QUIET, 0
+                        else:
+                            fail(o["stall_mech"], "stall for an existing descriptor (in the start cycle)")
             return
         if s == RESP:
             exp = o["exp"]
@@ -828,9 +943,17 @@ def run_standalone(rng, tier, res, setup):
                     fail("sa_missing_descriptor_no_stall", "no stall within %d cycles" % SA_WAIT)
                 return
             if stall:
+                if o["optional"]:
+                    res.event("sa_probes_judged")
+                    o["state"], o["quiet"] = QUIET, 0
+                    return
                 fail("sa_existing_descriptor_stalled", "stall for an existing descriptor")
                 return
             if not valid:
+                if o["optional"] and o["wait"] >= SA_WAIT:
+                    res.event("sa_probes_judged")
+                    o["state"], o["quiet"] = QUIET, 0
+                    return
                 if o["in_packet"]:
                     fail("sa_valid_dropped_mid_packet", "idx=%d of %d" % (o["idx"], len(exp)))
                     return
@@ -840,6 +963,11 @@ def run_standalone(rng, tier, res, setup):
                 return
             if len(exp) == 0:
                 # ZLP indication: valid & last & ~first
+                if o["optional"] and not (last and not first):
+                    fail("sa_data_streamed_for_position_without_data", "payload=%#x first=%d last=%d" % (payload, first, last))
+                    return
+                if o["optional"]:
+                    res.event("sa_probes_judged")
                 if last and not first:
                     res.event("sa_zlps_seen")
                     res.event("sa_requests_judged")
@@ -849,7 +977,9 @@ def run_standalone(rng, tier, res, setup):
                         res.bin("sa_zlp_with_ready_low")
                 else:
                     full = setup.table[(b.get(dut.value) >> 8, b.get(dut.value) & 0xFF)]
-                    if first and payload == full[0]:
+                    if len(full) == 0:
+                        fail("sa_%s_zero_length_descriptor_not_answered_with_zlp" % o["vkey"], "payload=%#x first=%d last=%d" % (payload, first, last))
+                    elif first and payload == full[0]:
                         fail("sa_%s_restarts_descriptor_instead_of_zlp_at_descriptor_end" % o["vkey"], "payload=%#x first=%d last=%d" % (payload, first, last))
                     else:
                         fail("sa_%s_data_instead_of_zlp_at_descriptor_end" % o["vkey"], "payload=%#x first=%d last=%d" % (payload, first, last))
@@ -957,6 +1087,9 @@ def run_standalone(rng, tier, res, setup):
                 nlen = len(raw)
                 r = rng.random()
                 length = setup.draw_wlength(rng, nlen)
+                if nlen == 0:
+                    res.bin("zero_length_descriptor_requested")
+                    r = 0.0
                 if r < 0.35:
                     sp = 0
                 elif r < 0.6:
@@ -968,7 +1101,24 @@ def run_standalone(rng, tier, res, setup):
                     sp = rng.randrange(nlen)
                 if sp >= length:
                     length = rng.choice([sp + 1, sp + mps, sp + rng.randint(1, 2 * mps), 0xFFFF])
-                if sp == nlen:
+                if variant_of(key) == "block" and rng.random() < 0.12:
+                    # probes outside what a legal host asks for
+                    if rng.random() < 0.6:
+                        sp = rng.choice([nlen + 1, nlen + mps, nlen + 2 * mps, 1023, 1024, 2040, 2047, rng.randint(nlen + 1, 2047)])
+                        sp = min(2047, max(nlen + 1, sp))
+                        length = rng.choice([0xFFFF, sp + 1, sp + mps, 2048])
+                        res.bin("sa_start_beyond_descriptor")
+                        if sp >= 1024:
+                            res.bin("sa_start_near_11bit_limit")
+                    else:
+                        sp = rng.choice([0, mps, nlen, rng.randrange(nlen + 1)])
+                        length = sp
+                        if length == 0:
+                            sp = length = min(nlen, mps)
+                        res.bin("sa_length_equals_start")
+                elif sp >= 1024:
+                    res.bin("sa_start_near_11bit_limit")
+                if sp == nlen and nlen:
                     res.bin("sa_zlp_position")
                     res.bin("exact_multiple_wlength_above_" + variant_of(key))
                 elif sp % mps:
